@@ -57,7 +57,11 @@ class BayesianModelInference(Inference):
         for state_combination in itertools.product(
             *[range(self.cardinality[var]) for var in variable_evid]
         ):
-            states = list(zip(variable_evid, state_combination))
+            # `state_combination` has state numbers; `reduce` expects state names.
+            states = [
+                (var, variable_cpd.get_state_names(var, state_no))
+                for var, state_no in zip(variable_evid, state_combination)
+            ]
             cached_values[state_combination] = variable_cpd.reduce(
                 states, inplace=False, show_warnings=False
             ).values
@@ -89,17 +93,10 @@ class BayesianModelInference(Inference):
         list: List of np.array with each element representing the reduced
                 values correponding to the states in sc_values.
         """
-        try:
-            values = [
-                variable_cpd.get_state_no(variable_evid[i], sc[i])
-                for i in range(len(sc))
-            ]
-        except KeyError:
-            values = sc
-
+        # `sc` holds state numbers (not state names), hence index with them directly.
         slice_ = [slice(None) for i in range(len(variable_cpd.variables))]
         for i, index in enumerate(reduce_index):
-            slice_[index] = values[i]
+            slice_[index] = sc[i]
 
         reduced_values = variable_cpd.values[tuple(slice_)]
         marg_values = compat_fns.einsum(reduced_values, range(reduced_values.ndim), [0])
